@@ -9,50 +9,62 @@
 (*   start    : the start class                                                                     *)
 (*   empty    : the set of truly empty classes                                                      *)
 (*   verified : classes the verification strategy verifies (a rule with no children)               *)
-(*   initial  : class -> <<>> or <<rule>>   what the initial strategy yields for the class          *)
-(*   expand   : class -> <<>> or <<rule>>   what the expansion strategy yields                      *)
+(*   ninit, nexp : number of initial strategies / of strategies in the (single) expansion set       *)
+(*   initial  : class -> sequence of ninit slots, a slot is <<>> or <<rule>>: what the i-th initial  *)
+(*              strategy yields for the class (classes not in the domain: nothing)                   *)
+(*   expand   : class -> sequence of nexp slots: what the i-th expansion strategy yields             *)
+(*   flavour  : "base" (rule_db/base.py: pruning, equivalence) | "forest" (rule_db/forest.py, no    *)
+(*              reverse rules: a class is verified as soon as it is productive)                      *)
 (* a rule is [ch |-> children classes, pe |-> possibly_empty, ip |-> ignore_parent,                 *)
-(*            wk |-> workable, tw |-> two-way].                                                      *)
-(* Pack shape: no inferral strategies, one initial strategy, one expansion set with one strategy    *)
-(* (the shape of the README pack).                                                                  *)
+(*            wk |-> workable, tw |-> two-way, sh |-> shifts].                                       *)
+(* Pack shape: no inferral strategies, any number of initial strategies, one expansion set with any *)
+(* number of strategies, plain strategies only (the README pack is ninit = nexp = 1).                *)
 (*                                                                                                  *)
-(* One action = one work packet (Packet), one specification check (Check, which marks the surviving *)
-(* classes verified, as RuleDBBase.pruned_dict does), or the end of the search.  When Check happens  *)
-(* is the time-slicing: TLC explores every slicing.                                                  *)
+(* One action = one work packet (Packet), one specification check (Check; in the base flavour it     *)
+(* marks the surviving classes verified, as RuleDBBase.pruned_dict does), or the end of the search.  *)
+(* When Check happens is the time-slicing: TLC explores every slicing.  Whether a handed-out packet  *)
+(* is expanded or skipped is decided for *that packet* from the state at that moment (is_verified of *)
+(* its label) - in the forest flavour a class may become verified by one of its own earlier packets. *)
 EXTENDS Naturals, Integers, Sequences, FiniteSets, FiniteSetsExt, SequencesExt, TLC
 CONSTANT U
 NInf == 0
-NInit == 1
-Exp == <<1>>
+NInit == U.ninit
+Exp == <<U.nexp>>
 Q == INSTANCE ClassQueue
 INSTANCE RuleDB
+PR == INSTANCE Productivity
+Forest == U.flavour = "forest"
 
 VARIABLES store,    \* sequence of classes: index = label + 1
           empt,     \* label -> "U" | "T" | "F"   cached emptiness
           q,        \* the work queue (ClassQueue implementation-shaped state)
-          rules,    \* set of stored rules [s, e, tw] over labels (cleaned: empty children of possibly_empty rules dropped)
+          rules,    \* base flavour: set of stored rules [s, e, tw] over labels (cleaned: empty children of possibly_empty rules dropped)
+          keys,     \* forest flavour: set of forest keys [p, ch, sh] over labels (all children, in order, with the shifts)
           marks,    \* labels marked verified in the equivalence database (verification rules + pruning survivors)
           tried,    \* labels on which verification was tried
           expanded, \* packets that were expanded (history, for the properties)
           skipped,  \* packets handed out but skipped because their label was verified
           phase,    \* "run" | "exhausted" | "found" | "notfound"
           checks    \* number of specification checks so far
-svars == <<store, empt, q, rules, marks, tried, expanded, skipped, phase, checks>>
+svars == <<store, empt, q, rules, keys, marks, tried, expanded, skipped, phase, checks>>
 
 LabelOfC(st, c) == (CHOOSE i \in 1..Len(st) : st[i] = c) - 1
 KnownC(st, c) == \E i \in 1..Len(st) : st[i] = c
 WithC(st, c) == IF KnownC(st, c) THEN st ELSE Append(st, c)
 ClassAtL(st, l) == st[l + 1]
 IsEmptyCls(c) == c \in U.empty
-Slot(f, c) == IF c \in DOMAIN f THEN f[c] ELSE <<>>
+Slot(f, c, i) == IF c \in DOMAIN f THEN f[c][i] ELSE <<>>
 
 \* the state threaded through the nested calls (try_verify inside add_rule inside _expand)
-S(st, em, qq, rs, mk, tr) == [store |-> st, empt |-> em, q |-> qq, rules |-> rs, marks |-> mk, tried |-> tr]
+S(st, em, qq, rs, ks, mk, tr) == [store |-> st, empt |-> em, q |-> qq, rules |-> rs, keys |-> ks, marks |-> mk, tried |-> tr]
 SetEm(em, l, v) == [x \in DOMAIN em \cup {l} |-> IF x = l THEN v ELSE em[x]]
 GetEm(em, l) == IF l \in DOMAIN em THEN em[l] ELSE "U"
 
-\* is_verified(label): some label of its equivalence class is marked (classes by the stored single-child rules)
-VerifiedL(s, l) == LET rep == RepMap(s.rules, {l} \cup s.marks) IN \E m \in s.marks : rep[m] = rep[l]
+\* forest: is_pumping(label) - the label is productive under the stored keys (Productivity.tla)
+PumpingL(ks, l) == LET C == PR!ClassesOf(ks) \cup {l} IN PR!Answer(ks, C)[l] = -1
+\* is_verified(label).  base: some label of its equivalence class is marked (classes by the stored single-child rules)
+VerifiedL(s, l) == IF Forest THEN PumpingL(s.keys, l)
+                   ELSE LET rep == RepMap(s.rules, {l} \cup s.marks) IN \E m \in s.marks : rep[m] = rep[l]
 
 \* RuleDBBase.add: clean the labels, record the rule
 RuleDBAdd(s, start, ends, rule, isver) ==
@@ -71,7 +83,30 @@ RuleDBAdd(s, start, ends, rule, isver) ==
                          ELSE IF \E x \in @ : x.s = r.s /\ x.e = r.e /\ x.tw THEN @ ELSE @ \cup {r},
                !.marks = IF isver THEN @ \cup {start} ELSE @]
 
-VerRule == [ch |-> <<>>, pe |-> FALSE, ip |-> TRUE, wk |-> FALSE, tw |-> FALSE]
+VerRule == [ch |-> <<>>, pe |-> FALSE, ip |-> TRUE, wk |-> FALSE, tw |-> FALSE, sh |-> <<>>]
+EmptyKey(l) == [p |-> l, ch |-> <<>>, sh |-> <<>>]
+\* RuleDBForest._add_empty_rule: every empty child of a possibly_empty rule that has no empty rule yet gets one through
+\* searcher.add_rule(label, (), EmptyStrategy rule): it stops being yielded (ignore_parent) and its key is stored
+RECURSIVE AddEmpties(_, _, _)
+AddEmpties(s, ends, i) ==
+  IF i > Len(ends) THEN s
+  ELSE LET l == ends[i]
+           em == [s EXCEPT !.empt = [x \in DOMAIN @ \cup {l} |-> IF x = l /\ (IF x \in DOMAIN @ THEN @[x] ELSE "U") = "U"
+                                                                  THEN (IF IsEmptyCls(ClassAtL(s.store, l)) THEN "T" ELSE "F")
+                                                                  ELSE @[x]]]
+       IN IF EmptyKey(l) \in s.keys /\ IsEmptyCls(ClassAtL(s.store, l)) THEN AddEmpties(s, ends, i + 1)   \* _already_empty: not even asked
+          ELSE IF IsEmptyCls(ClassAtL(s.store, l))
+               THEN AddEmpties([em EXCEPT !.q = Q!SetStop(@, l), !.keys = @ \cup {EmptyKey(l)}], ends, i + 1)
+               ELSE AddEmpties(em, ends, i + 1)
+\* RuleDBForest.add (reverse = False): the empty rules first, then the key of the rule itself (all children, in order);
+\* forest_key asks the emptiness of every child (is_equivalence), which caches it
+ForestAdd(s, start, ends, rule) ==
+  LET s1 == IF rule.pe THEN AddEmpties(s, ends, 1) ELSE s
+      es == {ends[i] : i \in 1..Len(ends)}
+      em2 == [x \in DOMAIN s1.empt \cup es |->
+                IF x \in es /\ (IF x \in DOMAIN s1.empt THEN s1.empt[x] ELSE "U") = "U"
+                THEN (IF IsEmptyCls(ClassAtL(s1.store, x)) THEN "T" ELSE "F") ELSE s1.empt[x]]
+  IN [s1 EXCEPT !.empt = em2, !.keys = @ \cup {[p |-> start, ch |-> ends, sh |-> rule.sh]}]
 RECURSIVE TryVerify(_, _), AddRule(_, _, _, _, _), AddChildren(_, _, _, _)
 \* try_verify(class, label)
 TryVerify(s, l) ==
@@ -94,7 +129,7 @@ AddChildren(s, ends, rule, i) ==
 AddRule(s, start, ends, rule, isver) ==
   LET s1 == AddChildren(s, ends, rule, 1)
       s2 == IF rule.ip THEN [s1 EXCEPT !.q = Q!SetStop(@, start)] ELSE s1
-  IN RuleDBAdd(s2, start, ends, rule, isver)
+  IN IF Forest THEN ForestAdd(s2, start, ends, rule) ELSE RuleDBAdd(s2, start, ends, rule, isver)
 \* _expand_class_with_strategy + add_rule for one strategy slot
 RECURSIVE LabelAll(_, _, _)
 LabelAll(st, chs, i) == IF i > Len(chs) THEN st ELSE LabelAll(WithC(st, chs[i]), chs, i + 1)
@@ -107,12 +142,12 @@ ExpandWith(s, l, slot) ==
                    ends == [i \in 1..Len(rule.ch) |-> LabelOfC(st2, rule.ch[i])]
                IN AddRule([s EXCEPT !.store = st2], l, ends, rule, FALSE)
 
-Cur == S(store, empt, q, rules, marks, tried)
-Install(s) == /\ store' = s.store /\ empt' = s.empt /\ q' = s.q /\ rules' = s.rules /\ marks' = s.marks /\ tried' = s.tried
+Cur == S(store, empt, q, rules, keys, marks, tried)
+Install(s) == /\ store' = s.store /\ empt' = s.empt /\ q' = s.q /\ rules' = s.rules /\ keys' = s.keys /\ marks' = s.marks /\ tried' = s.tried
 
 SInit ==
-  LET s1 == TryVerify(S(<<U.start>>, <<>>, Q!Add(Q!InitQ, 0), {}, {}, {}), 0)
-  IN /\ store = s1.store /\ empt = s1.empt /\ q = s1.q /\ rules = s1.rules /\ marks = s1.marks /\ tried = s1.tried
+  LET s1 == TryVerify(S(<<U.start>>, <<>>, Q!Add(Q!InitQ, 0), {}, {}, {}, {}), 0)
+  IN /\ store = s1.store /\ empt = s1.empt /\ q = s1.q /\ rules = s1.rules /\ keys = s1.keys /\ marks = s1.marks /\ tried = s1.tried
      /\ expanded = <<>> /\ skipped = <<>> /\ phase = "run" /\ checks = 0
 
 \* one iteration of the loop in _expand_classes_for, as a function of the threaded state:
@@ -122,7 +157,7 @@ PacketStep(s) ==
   IF r.ret = Q!StopP THEN [s |-> [s EXCEPT !.q = r.q], kind |-> "stop", p |-> r.ret]
   ELSE LET s1 == [s EXCEPT !.q = r.q]  l == r.ret.l IN
        IF VerifiedL(s1, l) THEN [s |-> s1, kind |-> "skip", p |-> r.ret]
-       ELSE [s |-> ExpandWith(s1, l, IF r.ret.k = "init" THEN Slot(U.initial, ClassAtL(s1.store, l)) ELSE Slot(U.expand, ClassAtL(s1.store, l))),
+       ELSE [s |-> ExpandWith(s1, l, IF r.ret.k = "init" THEN Slot(U.initial, ClassAtL(s1.store, l), r.ret.i) ELSE Slot(U.expand, ClassAtL(s1.store, l), r.ret.i)),
              kind |-> "expand", p |-> r.ret]
 Packet ==
   /\ phase = "run"
@@ -135,34 +170,47 @@ Packet ==
 \* has_specification(): prune the rules up to equivalence, mark the survivors verified
 PrunedOf(rs) == LET rep == RepMap(rs, {0}) IN [rep |-> rep, surv |-> Gfp(RdEq(rs, rep))]
 HasSpecOf(rs) == LET p == PrunedOf(rs) IN p.rep[0] \in p.surv
+\* the answer of has_specification() in a state (forest: the root is productive; nothing is marked)
+HasSpecS(s) == IF Forest THEN PumpingL(s.keys, 0) ELSE HasSpecOf(s.rules)
 Check ==
   /\ phase \in {"run", "exhausted"}      \* after the queue is drained the loop checks one last time
-  /\ LET p == PrunedOf(rules) IN
-     /\ marks' = marks \cup p.surv
-     /\ phase' = IF p.rep[0] \in p.surv THEN "found" ELSE IF phase = "exhausted" THEN "notfound" ELSE "run"
+  /\ IF Forest
+     THEN /\ marks' = marks
+          /\ phase' = IF PumpingL(keys, 0) THEN "found" ELSE IF phase = "exhausted" THEN "notfound" ELSE "run"
+     ELSE LET p == PrunedOf(rules) IN
+          /\ marks' = marks \cup p.surv
+          /\ phase' = IF p.rep[0] \in p.surv THEN "found" ELSE IF phase = "exhausted" THEN "notfound" ELSE "run"
   /\ checks' = checks + 1
-  /\ UNCHANGED <<store, empt, q, rules, tried, expanded, skipped>>
+  /\ UNCHANGED <<store, empt, q, rules, keys, tried, expanded, skipped>>
 SNext == Packet \/ Check
 SSpec == SInit /\ [][SNext]_svars
 
 \* the same search with no check before the queue is drained (a deterministic run): the reference
-InitState == TryVerify(S(<<U.start>>, <<>>, Q!Add(Q!InitQ, 0), {}, {}, {}), 0)
+InitState == TryVerify(S(<<U.start>>, <<>>, Q!Add(Q!InitQ, 0), {}, {}, {}, {}), 0)
 RECURSIVE Drain(_, _)
 Drain(s, fuel) == IF fuel = 0 THEN s ELSE LET r == PacketStep(s) IN IF r.kind = "stop" THEN r.s ELSE Drain(r.s, fuel - 1)
 Reference == Drain(InitState, 500)
-RefAnswer == HasSpecOf(Reference.rules)
+RefAnswer == HasSpecS(Reference)
 
 \* ---- properties ---------------------------------------------------------------------------------
 \* C04 at the model level: every stored rule is what the universe offers for the class carrying its start label
-Offered(c) == {<<>>} \cup {Slot(U.initial, c)} \cup {Slot(U.expand, c)}
+Offered(c) == {<<>>} \cup {Slot(U.initial, c, i) : i \in 1..U.ninit} \cup {Slot(U.expand, c, i) : i \in 1..U.nexp}
 RuleFaithful ==
   \A r \in rules :
      LET c == ClassAtL(store, r.s) IN
      \/ r.e = <<>> /\ c \in U.verified
-     \/ \E slot \in Offered(c) : slot # <<>> /\
+     \/ \E slot \in Offered(c) : slot # <<>> /\ (\A i \in 1..Len(slot[1].ch) : KnownC(store, slot[1].ch[i])) /\
           LET chl == [i \in 1..Len(slot[1].ch) |-> LabelOfC(store, slot[1].ch[i])]
               keep == SelectSeq(chl, LAMBDA x : ~(slot[1].pe /\ IsEmptyCls(ClassAtL(store, x))))
           IN r.e = SortSeq(keep, LAMBDA a, b : a < b)
+\* the same for the forest keys: an empty rule of an empty class, a verification rule of a verified class, or the key
+\* (all children in order, shifts) of a rule the universe offers for the class carrying the parent label
+KeyFaithful ==
+  \A k \in keys :
+     LET c == ClassAtL(store, k.p) IN
+     \/ k.ch = <<>> /\ (c \in U.verified \/ IsEmptyCls(c))
+     \/ \E slot \in Offered(c) : slot # <<>> /\ k.sh = slot[1].sh /\ Len(k.ch) = Len(slot[1].ch)
+                                  /\ \A i \in 1..Len(k.ch) : ClassAtL(store, k.ch[i]) = slot[1].ch[i]
 LabelsInjective == \A i, j \in 1..Len(store) : store[i] = store[j] => i = j
 CacheTruthfulS == \A l \in DOMAIN empt : empt[l] # "U" => (empt[l] = "T") = IsEmptyCls(ClassAtL(store, l))
 \* nothing the queue hands out is lost: a packet is expanded, or skipped for a label that is verified (and stays so)
@@ -170,7 +218,7 @@ SkippedAreVerified == \A i \in 1..Len(skipped) : VerifiedL(Cur, skipped[i].l)
 \* C17 / C01 at the model level: whether a specification is finally found does not depend on the slicing.
 \* Reference: the answer of the same search when no check happens before the queue is drained.
 FoundOnlyIfReferenceFinds == phase = "found" => RefAnswer
-ExhaustedAgreesWithReference == phase = "exhausted" => (HasSpecOf(rules) <=> RefAnswer)
+ExhaustedAgreesWithReference == phase = "exhausted" => (HasSpecS(Cur) <=> RefAnswer)
 NotFoundOnlyIfReferenceFindsNone == phase = "notfound" => ~RefAnswer
 \* what was explored under any slicing is part of what the reference explores (skipping only removes work)
 ExploredWithinReference == phase = "exhausted" => \A r \in rules : \E x \in Reference.rules : ClassAtL(store, r.s) = ClassAtL(Reference.store, x.s) /\ Len(r.e) = Len(x.e)
